@@ -92,3 +92,49 @@ Proof.
   assert (Ep : p = n_blech32 n) by (rewrite <- Hh, Sh; symmetry; apply segwit_prefix_canon; exact NS).
   split; [exact Ep|]. rewrite <- Ep. rewrite Low in R. exact R.
 Qed.
+
+(* ------------------------------------------------------------------ *)
+(* a confidential base58 address is recognised only if its inner address  *)
+(* prefix belongs to the network of its outer (confidential) prefix        *)
+(* ------------------------------------------------------------------ *)
+Lemma segwit_type_not_conf58 a b c v p t : decode_segwit_type a b c v p = Ok t ->
+  t = a \/ t = b \/ t = c.
+Proof.
+  unfold decode_segwit_type. destruct (n8 v =? 0).
+  - destruct (lenb p 20); [intro H; inversion H; tauto|]. destruct (lenb p 32); [intro H; inversion H; tauto | discriminate].
+  - destruct (n8 v =? 1); [intro H; inversion H; tauto | discriminate].
+Qed.
+
+Theorem conf_base58_inner_prefix
+  (b58dec : bytes -> option (bytes * byte)) (bech_dec : bytes -> option (bytes * bytes * bool))
+  (bcb : bytes -> N -> N -> bool -> option bytes) s t :
+  decode_type b58dec bech_dec bcb s = Ok t -> t = ConfidentialP2Pkh \/ t = ConfidentialP2Sh ->
+  exists n p rest, network_for_address b58dec s = Ok n /\ In n nets /\
+    b58dec s = Some (p :: rest, n_conf n) /\ length (p :: rest) = 54%nat /\
+    ((p = n_pkh n /\ t = ConfidentialP2Pkh) \/ (p = n_sh n /\ t = ConfidentialP2Sh)).
+Proof.
+  intros D T. unfold decode_type in D.
+  destruct (network_for_address b58dec s) as [n| |] eqn:NW; try discriminate.
+  destruct (attribution_exclusive b58dec s n NW) as [In_n _].
+  destruct (is_hrp s (n_blech32 n)).
+  { unfold decode_blech32 in D. destruct (from_blech32 s) as [[[[? v] ?] p]| |]; try discriminate.
+    apply segwit_type_not_conf58 in D. exfalso.
+    destruct T as [-> | ->]; destruct D as [D|[D|D]]; vm_compute in D; discriminate D. }
+  destruct (is_hrp s (n_bech32 n)).
+  { unfold decode_bech32 in D. destruct (from_bech32 bech_dec bcb s) as [[[? v] p]| |]; try discriminate.
+    apply segwit_type_not_conf58 in D. exfalso.
+    destruct T as [-> | ->]; destruct D as [D|[D|D]]; vm_compute in D; discriminate D. }
+  unfold decode_base58 in D. destruct (b58dec s) as [[d id]|] eqn:B; [|discriminate].
+  destruct (beqb id (n_conf n)) eqn:Ec.
+  - apply beqb_eq in Ec. subst id.
+    destruct (Nat.ltb_spec (length d) 34) as [|L34]; [discriminate|].
+    destruct (lenb (skipn 34 d) 20) eqn:L20; [|discriminate].
+    destruct d as [|p rest]; [discriminate|].
+    exists n, p, rest. split; [reflexivity|]. split; [exact In_n|]. split; [reflexivity|]. split.
+    + unfold lenb in L20. apply Nat.eqb_eq in L20. rewrite skipn_length in L20. lia.
+    + unfold pick_type in D. destruct (beqb p (n_pkh n)) eqn:E1, (beqb p (n_sh n)) eqn:E2; cbn [andb] in D; try discriminate;
+        inversion D; subst t; [left | right]; (split; [apply beqb_eq; assumption | reflexivity]).
+  - exfalso. destruct (lenb d 20); [|discriminate]. unfold pick_type in D.
+    destruct (beqb id (n_pkh n)), (beqb id (n_sh n)); cbn [andb] in D; try discriminate; inversion D; subst t;
+      destruct T as [T|T]; vm_compute in T; discriminate T.
+Qed.
